@@ -368,6 +368,10 @@ impl Report {
             }
             return 1;
         }
+        if self.acc.samples.is_empty() {
+            println!("MACHINERY-ERROR the run recorded no sample case");
+            return 2;
+        }
         if distinct < self.min_nontrivial {
             println!("MACHINERY-ERROR vacuous run: distinct_nontrivial={} < {}", distinct, self.min_nontrivial);
             return 2;
